@@ -65,9 +65,62 @@ def _collect_tagsets(name, body, out):
         out[name] = (entries, sup)
 
 
+def _or_chain(e, out):
+    """flatten `a || b || c`; each operand must be f(param) or a matches!-style match"""
+    if e.get("k") == "Binary" and e.get("op") == "||":
+        return _or_chain(e["l"], out) and _or_chain(e["r"], out)
+    if e.get("k") == "Paren":
+        return _or_chain(e["e"], out)
+    if e.get("k") == "Call" and len(e.get("args", [])) == 1:
+        out.append(("call", show(e["f"])))
+        return True
+    if e.get("k") == "Match":
+        names = set()
+        for a in e["arms"]:
+            b = a["body"]
+            ns = expanded_names_in_pat(a["pat"])
+            if ns and b.get("k") == "Lit" and b.get("v") is True:
+                names |= set(ns)
+            elif not ns and b.get("k") == "Lit" and b.get("v") is False:
+                pass
+            else:
+                return False
+        out.append(("names", names))
+        return True
+    return False
+
+
+def or_chain_fns(ctx):
+    """name -> operands, for the functions of tree_builder whose body is an || chain over set functions / matches!"""
+    out = {}
+    for it in ctx.ast.crates["html5ever"]:
+        if it["k"] != "Fn" or it.get("body") is None or "tree_builder" not in it["mod"]:
+            continue
+        stmts = [x for x in it["body"] if x["k"] == "ExprStmt"]
+        if len(stmts) != 1 or len(it["body"]) != 1:
+            continue
+        ops = []
+        if stmts[0]["e"].get("k") == "Binary" and _or_chain(stmts[0]["e"], ops):
+            out[it["name"]] = ops
+    return out
+
+
 def resolve(sets, name, depth=0):
     """-> (set of (ns,local) that are members, set explicitly excluded) following the super chain of declared sets"""
-    if name not in sets or depth > 6:
+    if depth > 6:
+        return None
+    if name not in sets and name in sets.get("__chains__", {}):
+        mem = set()
+        for kind, v in sets["__chains__"][name]:
+            if kind == "names":
+                mem |= v
+            else:
+                r = resolve(sets, v.split("::")[-1], depth + 1)
+                if r is None:
+                    return None
+                mem |= r
+        return mem
+    if name not in sets:
         return None
     entries, sup = sets[name]
     base = set()
@@ -85,6 +138,7 @@ def resolve(sets, name, depth=0):
 
 def r02_1(ctx):
     sets = tag_set_fns(ctx)
+    sets["__chains__"] = or_chain_fns(ctx)
     n = 0
 
     def html(names):
@@ -104,6 +158,11 @@ def r02_1(ctx):
         ent, sup = sets.get(k, ({}, None))
         check(k, {kk for kk, v in ent.items() if v}, html(SPEC[extra]), "%s - default scope" % k)
         ctx.ob("R02.1", "spec-set/%s-extends-default-scope" % k, sup == "default_scope", "%s is default_scope plus its additions" % k)
+    # the foreign members of the scope-terminating list and of the special category
+    foreign = {("mathml", x) for x in SPEC["mathml_text_integration_point"] + ["annotation-xml"]} | {("svg", x) for x in SPEC["svg_html_integration_point"]}
+    for k in ("default_scope", "special_tag"):
+        r = resolve(sets, k)
+        check(k + "-foreign-members", None if r is None else {x for x in r if x[0] != "html"}, foreign, "MathML / SVG members of " + k)
     # integration points (matches! style)
     for fn, key, ns in (("mathml_text_integration_point", "mathml_text_integration_point", "mathml"), ("svg_html_integration_point", "svg_html_integration_point", "svg")):
         its = [it for it in ctx.ast.crates["html5ever"] if it["k"] == "Fn" and it["name"] == fn and it.get("body") is not None]
